@@ -519,6 +519,8 @@ impl<'this> InternalOptimisingLineFormatter<'this, '_> {
         let mut node_successors = Vec::new();
 
         'node_heap: while let Some(mut node) = node_heap.pop() {
+            #[cfg(pasfmt_verif)]
+            crate::verif_hooks::yield_point("olf_search_iteration");
             if iteration_count > self.settings.iteration_max {
                 return Err(FormattingSolutionError::IterationLimitReached);
             }
